@@ -744,3 +744,26 @@ Proof.
       assert (Hqs: In q s) by (apply (chain_incl s tip); exact Hqc).
       exists q. split; [exact Hqs|]. split; [apply (is_L_iff s tip HI q Hqs); exact Hqc|]. split; assumption.
 Qed.
+
+(* ---- crashes at commit granularity are crash states too ---- *)
+Lemma exec_commits_is_exec ws : forall s k, exists k', exec_commits s ws k = exec s ws k'.
+Proof.
+  induction ws as [|w ws IH]; intros s k; [exists 0%nat; reflexivity|]. cbn [exec_commits].
+  assert (Hstep: forall k0, exists k', exec_commits (apply_write s w) ws k0 = exec s (w :: ws) k').
+  { intros k0. destruct (IH (apply_write s w) k0) as [k'' E]. exists (S k''). rewrite E. reflexivity. }
+  destruct (costs_commit w); [|apply Hstep].
+  destruct k as [|k0]; [exists 0%nat; reflexivity| apply Hstep].
+Qed.
+
+Theorem commit_crash_inv f s tip h k : Inv s tip -> s_id h <> 0%N -> exists tip', Inv (commit_crash_state f s h k) tip'.
+Proof.
+  intros HI Hz. unfold commit_crash_state. destruct (exec_commits_is_exec (snd (plan f s h)) s k) as [k' E].
+  rewrite E. exact (crash_inv f s tip h k' HI Hz).
+Qed.
+
+Theorem commit_recover_step f s tip h k : Inv s tip -> nonneg_work s -> s_id h <> 0%N ->
+  fst (add f (commit_crash_state f s h k) h) = fst (add f s h).
+Proof.
+  intros HI Hnn Hz. unfold commit_crash_state. destruct (exec_commits_is_exec (snd (plan f s h)) s k) as [k' E].
+  rewrite E. exact (recover_step f s tip h k' HI Hnn Hz).
+Qed.
